@@ -100,6 +100,7 @@ func TestVerifC05_scalar25519(t *testing.T) {
 			k := append([]byte{}, in...)
 			reduceModOrder(k, true)
 			r.Eval(1)
+			r.Distinct("red512", in)
 			want := new(big.Int).Mod(c05LE(in), c05L)
 			got := c05LE(k[:32])
 			if got.Cmp(want) != 0 {
@@ -116,7 +117,6 @@ func TestVerifC05_scalar25519(t *testing.T) {
 				r.Sample(map[string]string{"fn": "reduceModOrder(512)", "in_le": fmt.Sprintf("%x", in), "out_le": fmt.Sprintf("%x", k[:32])})
 			}
 		}
-		r.Distinct("red512", li) // 81 operands each; counted below
 	})
 	for _, b := range res {
 		if b != nil {
@@ -210,6 +210,7 @@ func TestVerifC05_scalar25519(t *testing.T) {
 			s := make([]byte, 32)
 			calculateS(s, rr, kk, a)
 			r.Eval(1)
+			r.Distinct("calculateS", rr, kk, a)
 			want := new(big.Int).Mul(K, c05LE(a))
 			want.Add(want, R).Mod(want, c05L)
 			if got := c05LE(s); got.Cmp(want) != 0 {
@@ -224,7 +225,6 @@ func TestVerifC05_scalar25519(t *testing.T) {
 				r.Count("calculateS-ok", 1)
 			}
 		}
-		r.Distinct("calculateS", rr, kk)
 	})
 	for _, b := range res {
 		if b != nil {
@@ -232,8 +232,10 @@ func TestVerifC05_scalar25519(t *testing.T) {
 		}
 	}
 	r.Set("calculateS_operands", map[string]int{"r": n, "k": n, "a": len(as)})
-	r.Set("note_distinct", "distinct counts operand groups (one per low-limb tuple of the 512-bit inputs, per 256-bit input, per (r,k) pair); evaluations counts every call")
 	r.RequireCounter("isLessThanOrder", nLow)
+	if r.Replaying() {
+		return
+	}
 	if r.Counter("red512-ok")+r.Counter("red512-wrong") < nLow*81 {
 		r.Vacuous("512-bit alphabet not covered")
 	}
